@@ -157,6 +157,7 @@ pub fn run_incr_case(case: &Case, env: &Env, focus: &str) -> CaseOut {
         restat_pct: 0,
         repeat_pct: 20,
         explain_pct: 0,
+        symlink_pct: 10,
         ..Profile::default()
     };
     let mut mt = Tape::new(&case.main);
